@@ -110,7 +110,7 @@ class Overlay:
 
 class Item:
     """one generated item"""
-    __slots__ = ('entry', 'key', 'kind', 'container', 'impl_header', 'modpath', 'full', 'stub', 'ratio', 'identical', 'log', 'name', 'ghost_counts', 'code_tokens', 'canary_full', 'n_canaries', 'header_tokens', 'variant', 'assumed', 'out_tokens', 'body_index', 'is_mp', 'degraded_full', 'impl_ghost')
+    __slots__ = ('entry', 'key', 'kind', 'container', 'impl_header', 'modpath', 'full', 'stub', 'ratio', 'identical', 'log', 'name', 'ghost_counts', 'code_tokens', 'canary_full', 'n_canaries', 'header_tokens', 'variant', 'assumed', 'out_tokens', 'body_index', 'is_mp', 'degraded_full', 'impl_ghost', 'lifted')
 
 
 def _proof_fn_stub(text):
@@ -252,6 +252,7 @@ class Generator:
             it.is_mp = False
             it.degraded_full = None
             it.impl_ghost = None
+            it.lifted = False
             it.assumed = 'assumed' in e.opts
             if e.kind in ('raw', 'spec'):
                 it.full = text
@@ -286,6 +287,14 @@ class Generator:
                 except Exception as ex:
                     self.problems.append(('unsupported', it.key + '__mp', str(ex)))
         items += extra
+        extra2 = []
+        for it in items:
+            if it.kind == 'fn' and 'wflift' in it.entry.opts and it.out_tokens is not None and not it.is_mp:
+                try:
+                    extra2.append(self._derive_wflift(it))
+                except Exception as ex:
+                    self.problems.append(('unsupported', it.key + '__wf', str(ex)))
+        items += extra2
         proven_keys = {(it.kind, it.key) for it in items if it.kind in ('fn', 'const') and not it.assumed}
         items = [it for it in items if not (it.assumed and (it.kind, it.key) in proven_keys)]
         self.items = items
@@ -638,68 +647,7 @@ class Generator:
         trait_dual = bool(it.impl_header and ' for ' in it.impl_header and 'ext_trait' not in it.entry.opts)
         new_impl_header = it.impl_header
         if trait_dual:
-            # dual of a method of a std operator trait impl: the trait has no such method, so the dual is emitted as
-            # an inherent method `<m>__mp_<Trait..>` of the Self type; its panic condition comes from the entry option
-            # `mpreq=` (the same expression as the SpecImpl `*_req`), since trait methods cannot carry `requires`
-            ht = it.impl_header.split(' ')
-            fpos = ht.index('for')
-            selfty = ht[fpos + 1:]
-            if selfty[0] == '&':
-                raise ValueError('no must-panic dual for an impl on a reference type')
-            gi = 1
-            gen_toks = []
-            if ht[1] == '<':
-                d = 0
-                while True:
-                    if ht[gi] == '<':
-                        d += 1
-                    elif ht[gi] == '>':
-                        d -= 1
-                        if d == 0:
-                            break
-                    gi += 1
-                gen_toks = ht[1:gi + 1]
-                gi += 1
-            trait_toks = ht[gi:fpos]
-            tid = re.sub(r'[^A-Za-z0-9]+', '_', ''.join(trait_toks)).strip('_')
-            header[fi + 1] = name + '__mp_' + tid
-            # generic parameters that the Self type does not mention move from the impl header to the fn
-            params = []
-            if gen_toks:
-                cur = []
-                d = 0
-                for t in gen_toks[1:-1]:
-                    if t == '<':
-                        d += 1
-                    elif t == '>':
-                        d -= 1
-                    if t == ',' and d == 0:
-                        params.append(cur)
-                        cur = []
-                    else:
-                        cur.append(t)
-                if cur:
-                    params.append(cur)
-
-            def pname(p_):
-                return p_[1] if p_ and p_[0] == 'const' else (p_[0] if p_ else '')
-            keep = [p_ for p_ in params if pname(p_) in selfty]
-            move = [p_ for p_ in params if pname(p_) not in selfty]
-
-            def glist(ps):
-                if not ps:
-                    return []
-                o = ['<']
-                for i_, p_ in enumerate(ps):
-                    if i_:
-                        o.append(',')
-                    o += p_
-                return o + ['>']
-            new_impl_header = ' '.join(['impl'] + glist(keep) + selfty)
-            if move:
-                header[fi + 2:fi + 2] = glist(move)
-            if 'Self' in header and '::' in header and 'Output' in header:
-                raise ValueError('Self::Output in the signature of a trait method dual')
+            new_impl_header = self._inherent_twin(it, header, fi, name + '__mp_')
         sig, clauses = split_header(header)
         req, ens, other = [], [], []
         if trait_dual:
@@ -787,6 +735,162 @@ class Generator:
         m.canary_full = m.full
         m.n_canaries = 0
         m.stub = '#[verifier::external_body]\n' + join(h2) + '{ unimplemented!() }\n'
+        return m
+
+
+    def _inherent_twin(self, it, header, fi, prefix):
+        """a method of an impl of a std trait gets an inherent twin `<prefix><Trait..>` of the Self type (the trait has no
+        such method and trait methods cannot carry `requires`): renames the fn in `header` (in place), moves the impl's
+        generic parameters that the Self type does not mention to the fn, and returns the inherent impl header."""
+        ht = it.impl_header.split(' ')
+        fpos = ht.index('for')
+        selfty = ht[fpos + 1:]
+        if selfty[0] == '&':
+            raise ValueError('no inherent twin for an impl on a reference type')
+        gi = 1
+        gen_toks = []
+        if ht[1] == '<':
+            d = 0
+            while True:
+                if ht[gi] == '<':
+                    d += 1
+                elif ht[gi] == '>':
+                    d -= 1
+                    if d == 0:
+                        break
+                gi += 1
+            gen_toks = ht[1:gi + 1]
+            gi += 1
+        trait_toks = ht[gi:fpos]
+        tid = re.sub(r'[^A-Za-z0-9]+', '_', ''.join(trait_toks)).strip('_')
+        header[fi + 1] = prefix + tid
+        # generic parameters that the Self type does not mention move from the impl header to the fn
+        params = []
+        if gen_toks:
+            cur = []
+            d = 0
+            for t in gen_toks[1:-1]:
+                if t == '<':
+                    d += 1
+                elif t == '>':
+                    d -= 1
+                if t == ',' and d == 0:
+                    params.append(cur)
+                    cur = []
+                else:
+                    cur.append(t)
+            if cur:
+                params.append(cur)
+
+        def pname(p_):
+            return p_[1] if p_ and p_[0] == 'const' else (p_[0] if p_ else '')
+        keep = [p_ for p_ in params if pname(p_) in selfty]
+        move = [p_ for p_ in params if pname(p_) not in selfty]
+
+        def glist(ps):
+            if not ps:
+                return []
+            o = ['<']
+            for i_, p_ in enumerate(ps):
+                if i_:
+                    o.append(',')
+                o += p_
+            return o + ['>']
+        new_impl_header = ' '.join(['impl'] + glist(keep) + selfty)
+        if move:
+            header[fi + 2:fi + 2] = glist(move)
+        if 'Self' in header and '::' in header and 'Output' in header:
+            raise ValueError('Self::Output in the signature of a trait method twin')
+        return new_impl_header
+
+    def _derive_wflift(self, it):
+        """`[wflift]` (DESIGN 3.3): a method of an impl of a STD trait whose body needs a precondition P (typically A0
+        `bn_wf(N)`: N >= 1) that a trait method cannot state.  The entry is written with `requires P ensures Q`;
+        the real body is verified against exactly that as an inherent twin `<m>__wf_<Trait>` of the Self type, and the
+        trait method itself is emitted as a stub with `ensures P ==> Q` - which follows from the twin for every call
+        that returns (partial correctness; nothing is claimed outside P)."""
+        if not (it.impl_header and ' for ' in it.impl_header) or 'ext_trait' in it.entry.opts:
+            raise ValueError('wflift applies to methods of std trait impls')
+        out = list(it.out_tokens)
+        b = it.body_index
+        header, body = out[:b], out[b:]
+        fi = header.index('fn')
+        name = header[fi + 1]
+        h_twin = list(header)
+        new_impl_header = self._inherent_twin(it, h_twin, fi, name + '__wf_')
+        m = Item()
+        m.entry = it.entry
+        m.kind = 'fn'
+        m.key = it.key + '__wf'
+        m.name = m.key
+        m.log = dict(it.log)
+        m.log['WFLIFT'] = 1
+        m.ratio = it.ratio
+        m.identical = it.identical
+        m.ghost_counts = it.ghost_counts
+        m.code_tokens = it.code_tokens
+        m.impl_header = new_impl_header
+        m.modpath = it.modpath
+        m.container = None
+        m.header_tokens = h_twin
+        m.out_tokens = None
+        m.body_index = None
+        m.variant = None
+        m.assumed = False
+        m.lifted = False
+        m.is_mp = True    # emitted in an impl block of its own
+        m.impl_ghost = None
+        m.degraded_full = None
+        m.full = join(h_twin + body)
+        ctoks = lex(it.canary_full) if it.canary_full else None
+        m.canary_full = join(h_twin + ctoks[len(header):]) if ctoks and ctoks[:len(header)] == header else m.full
+        m.n_canaries = it.n_canaries if ctoks and ctoks[:len(header)] == header else 0
+        m.stub = '#[verifier::external_body]\n' + join(h_twin) + '{ unimplemented!() }\n'
+        # the trait method: `requires P.. ensures Q..`  ->  `ensures (P..) ==> (Q)`
+        sig, clauses = split_header(header)
+
+        def parts_of(toks):
+            parts, cur, d = [], [], 0
+            for t in toks:
+                if t in '([{':
+                    d += 1
+                elif t in ')]}':
+                    d -= 1
+                if t == ',' and d == 0:
+                    if cur:
+                        parts.append(cur)
+                    cur = []
+                else:
+                    cur.append(t)
+            if cur:
+                parts.append(cur)
+            return parts
+        req, ens, other = [], [], []
+        for kw, toks in clauses:
+            if kw == 'requires':
+                req += parts_of(toks)
+            elif kw == 'ensures':
+                ens += parts_of(toks)
+            else:
+                other.append((kw, toks))
+        if not req or not ens:
+            raise ValueError('wflift needs a requires and an ensures clause')
+        pre = []
+        for i_, p_ in enumerate(req):
+            if i_:
+                pre.append('&&')
+            pre += ['('] + p_ + [')']
+        h3 = list(sig) + ['ensures']
+        for e_ in ens:
+            h3 += ['('] + pre + [')', '==>', '('] + e_ + [')', ',']
+        lifted = '#[verifier::external_body]\n' + join(h3) + '{ unimplemented!() }\n'
+        it.full = lifted
+        it.stub = lifted
+        it.canary_full = lifted
+        it.n_canaries = 0
+        it.degraded_full = None
+        it.header_tokens = h3
+        it.lifted = True
         return m
 
     def render(self, unit, canary=False, degrade=()):
